@@ -33,6 +33,7 @@ type PipeParams struct {
 	Auto       bool     `json:"auto"`
 	CrashEnd   bool     `json:"crash_end"`   // always finish with crash+restart
 	Latest     bool     `json:"latest"`      // checkpoint.autoReset = latest
+	SkipFrac   bool     `json:"skip_frac"`   // skipUntil lies half a second after a whole second (event times are whole seconds)
 	MetaBucket bool     `json:"meta_bucket"` // checkpoints live in a second bucket, not in the streamed one
 }
 
@@ -204,7 +205,11 @@ func (pp *pipe) kept(p gocbcore.SimPacket) bool {
 }
 
 func (pp *pipe) skipped(p gocbcore.SimPacket) bool {
-	return pp.p.SkipUntil && isDoc(p.Kind) && skipT.After(time.Unix(int64(p.Cas/1000000000), 0))
+	st := skipT
+	if pp.p.SkipFrac {
+		st = skipT.Add(500 * time.Millisecond)
+	}
+	return pp.p.SkipUntil && isDoc(p.Kind) && st.After(time.Unix(int64(p.Cas/1000000000), 0))
 }
 
 // absorbed: events that advance the position without the consumer
@@ -245,6 +250,9 @@ func newPipe(p PipeParams) *pipe {
 	}
 	if p.SkipUntil {
 		t := skipT
+		if p.SkipFrac {
+			t = skipT.Add(500 * time.Millisecond)
+		}
 		o.SkipUntil = &t
 	}
 	if p.Colls {
